@@ -297,7 +297,9 @@ def _url_text():
 def _string_values(opts):
     """Values aimed at a StringField parameterisation: satisfy / just miss every option."""
     parts = [st.text(max_size=8), st.sampled_from(["", " ", "a", "ab", "abc", "Ab", "aB", "  ab  ", "foo", "bar", "a1z", "42", "x", " x ", "\tx\n",
-                                                    "ß", "aß", "ﬁ", "İ", "aaß", "ßa"])]
+                                                    "ß", "aß", "ﬁ", "İ", "aaß", "ßa"]),
+             # characters that line-oriented formats fold, escape or treat as line breaks
+             st.sampled_from(["\x85", "a\x85b", "\u2028", "a\u2029b", "\x0b", "\x0c", "\x1c", "\x7f", "\ufeffx", "a\n\nb", "tab\there", "'q'", '"q"', "a: b", "#c"])]
     if opts.get("choices"):
         ch = opts["choices"]
         parts.append(st.sampled_from(ch))
